@@ -1,6 +1,7 @@
 import Pymeeus.Refine.Easter
 import Pymeeus.Refine.Pesach
 import Pymeeus.Refine.Moslem3
+import Pymeeus.Refine.ReligGrow
 /-
 C19 — Easter, Pesach and Moslem-calendar conversions follow their calendar rules.
 
@@ -199,5 +200,199 @@ example : Islamic.Valid 1421 1 1 ∧ Islamic.Valid 990 9 16 ∧ Islamic.Valid 14
 example : moslem2gregorian 1421 1 1 = .ok (2000, 4, .inl 6) ∧ gregorian2moslem 1991 8 13 = .ok (1412, 2, 2) ∧
     gregorian2moslem 1582 10 15 = .ok (990, 9, 17) ∧ moslem2gregorian 990 9 16 = .ok (1582, 10, .inr 4) := by
   decide +kernel
+
+/-! ### Second layer: cycles, range tests, argument forms, and the boundary cases that seeded changes hit -/
+
+/-- Structural fact behind "Easter for every year": in the Julian calendar the dates repeat after
+    532 = 4 · 7 · 19 years (leap cycle × week × Metonic cycle). -/
+theorem easter_julian_cycle (y : Int) (h : y + 532 ≤ 1582) : easter (y + 532) = easter y := by
+  rw [easter_int, easter_int]; exact easterI_julian_period y h
+
+/-- ... and in the Gregorian calendar after 5 700 000 years (the period of the epact cycle), for every
+    year from 1583 on. -/
+theorem easter_gregorian_cycle (y : Int) (h : 1583 ≤ y) : easter (y + 5700000) = easter y := by
+  rw [easter_int, easter_int]; exact easterI_gregorian_period y h
+
+/-- The exception step of the Gregorian branch (`m = iint((a + 11 h + 22 l) / 451.0)`) at its boundary
+    value itself: whenever `a + 11 h + 22 l` is exactly 451 (h = 29, l = 6, a = 0 or h = 28, l = 6,
+    a = 11) Easter is pulled back a week, to 18 April (a = 0; otherwise 25 April, the wrong Sunday) resp.
+    19 April (a = 11; otherwise 26 April, outside the range).  Stated through the two theorems
+    above for all years; here for the only five such years up to 10000. -/
+theorem easter_exception_boundary :
+    easter 3165 = (4, 18) ∧ easter 3192 = (4, 19) ∧ easter 3260 = (4, 18) ∧ easter 3317 = (4, 18) ∧
+    easter 3344 = (4, 19) ∧ easter 1981 = (4, 19) ∧ easter 1954 = (4, 18) ∧ easter 2038 = (4, 25) := by
+  decide +kernel
+
+/-- "which exception is raised when", Moslem -> civil: `moslem2gregorian` raises ValueError exactly
+    when `day < 1 or day > 30 or month < 1 or month > 12 or year < 1`; on EVERY other integer triple
+    -- a date of the calendar or day 30 of a month that has 29 days -- it returns the civil date whose
+    day number is the tabular formula `d + ceil(29.5 (m-1)) + 354 (h-1) + floor((3 + 11 h)/30) + 1948439`
+    (so day 30 of a short month is read as the first day of the next month). -/
+theorem moslem2gregorian_range_test (h m d : Int) :
+    ((d < 1 ∨ d > 30 ∨ m < 1 ∨ m > 12 ∨ h < 1) → moslem2gregorian h m d = .error .valueError) ∧
+    (¬ (d < 1 ∨ d > 30 ∨ m < 1 ∨ m > 12 ∨ h < 1) →
+      ∃ (y' m' d' : Int) (D : Int ⊕ ℚ), moslem2gregorian h m d = .ok (y', m', D) ∧ dayQ D = (d' : ℚ) ∧
+        Valid y' m' d' ∧ compute_jde y' m' (ofInt d') = (Islamic.jdn h m d : ℚ) - 1 / 2) := by
+  constructor
+  · intro hbad; rw [moslem2gregorian_int]; exact m2gI_error h m d hbad
+  · intro hok
+    obtain ⟨y', m', d', D, e1, e2, e3, e4⟩ :=
+      m2gI_correct_range h m d (by omega) (by omega) (by omega) (by omega) (by omega)
+    exact ⟨y', m', d', D, by rw [moslem2gregorian_int, e1], e2, e3, by rw [compute_jde_int _ _ _ e3, e4]⟩
+
+/-- Day 30 of a month of 29 days is the same civil day as the first day of the following month. -/
+theorem moslem2gregorian_day30_of_short_month (h m : Int) (hh : 1 ≤ h) (hm1 : 1 ≤ m) (hm12 : m ≤ 12)
+    (hs : Islamic.monthLen h m = 29) :
+    m2gJde h m 30 = m2gJde (Islamic.next h m 29).1 (Islamic.next h m 29).2.1 (Islamic.next h m 29).2.2 := by
+  have v : Islamic.Valid h m 29 := ⟨hh, hm1, hm12, by decide, by omega⟩
+  obtain ⟨nv, nj⟩ := isl_next_jdn h m 29 v
+  rw [m2gJde_eq _ _ _ nv, nj, m2gJde_eq_range h m 30 hh hm1 hm12 (by decide) (by decide)]
+  unfold Islamic.jdn; push_cast; ring_nf
+
+/-- "which exception is raised when", civil -> Moslem: `gregorian2moslem` raises ValueError exactly
+    when `day < 1 or day > 31 or month < 1 or month > 12 or year < -4712` and returns a triple for
+    every other integer argument (valid date or not, before or after the Moslem epoch). -/
+theorem gregorian2moslem_range_test (y m d : Int) :
+    ((d < 1 ∨ d > 31 ∨ m < 1 ∨ m > 12 ∨ y < -4712) → gregorian2moslem y m d = .error .valueError) ∧
+    (¬ (d < 1 ∨ d > 31 ∨ m < 1 ∨ m > 12 ∨ y < -4712) → ∃ r, gregorian2moslem y m d = .ok r) :=
+  ⟨g2m_error y m d, g2m_ok y m d⟩
+
+/-- The leap-year test that `gregorian2moslem` writes three times
+    (`355 if (11 * (h % 30) + 3) % 30 > 18 else 354`, one definition `g2m_ylen` in the model) is, for
+    EVERY integer year, the year length of the tabular calendar: 355 exactly in the years 2, 5, 7, 10,
+    13, 16, 18, 21, 24, 26, 29 of the 30-year cycle -- and that list agrees with the closed day-number
+    formula of the spec. -/
+theorem moslem_year_length_test (h : Int) :
+    g2m_ylen h = Islamic.yearLen h ∧ Islamic.jdn (h + 1) 1 1 - Islamic.jdn h 1 1 = Islamic.yearLen h :=
+  ⟨(isl_yearLen h).symm, isl_yearLen_jdn h⟩
+
+/-- Boundary cases of `moslem2gregorian`: civil day-of-year 0 (31 December of the previous year, the
+    `j < 1` exit), day-of-year 366 of a Julian leap year (kept, not wrapped), the wrap into the next
+    year, and both sides of the 1582 reform. -/
+theorem moslem2gregorian_boundaries :
+    moslem2gregorian 556 1 1 = .ok (1160, 12, .inl 31) ∧ moslem2gregorian 791 1 1 = .ok (1388, 12, .inl 31) ∧
+    moslem2gregorian 3 7 14 = .ok (624, 12, .inr 31) ∧ moslem2gregorian 3 7 15 = .ok (625, 1, .inr 1) ∧
+    moslem2gregorian 1446 7 13 = .ok (2025, 1, .inl 13) ∧
+    moslem2gregorian 990 9 16 = .ok (1582, 10, .inr 4) ∧ moslem2gregorian 990 9 17 = .ok (1582, 10, .inl 15) ∧
+    gregorian2moslem 1714 1 12 = .ok (1125, 12, 25) ∧ gregorian2moslem 1714 1 16 = .ok (1125, 12, 29) ∧
+    gregorian2moslem 1714 1 17 = .ok (1126, 1, 1) := by
+  refine ⟨?_, ?_, ?_, ?_, ?_, ?_, ?_, ?_, ?_, ?_⟩ <;> decide +kernel
+
+/-- Boundary of the fourth Pesach rule (`j == 0 and a > 11 and r > 0.897723765`): the years with
+    `a = 11` in which the other two conditions hold keep the unpostponed date. -/
+theorem pesach_guard_boundary :
+    jewish_pesach 2272 = (4, 13) ∧ jewish_pesach 2519 = (4, 15) ∧ jewish_pesach 2766 = (4, 16) := by
+  decide +kernel
+
+/-! ### `float` arguments: the result depends on the integer part only; the range tests see the fraction -/
+
+/-- `Epoch.easter(y + f)`, `0 ≤ f < 1`: `int()` truncates toward zero, so a non-negative year keeps its
+    integer part and a negative non-integer year is rounded UP. -/
+theorem easter_float_year (y : Int) (f : ℚ) (h0 : 0 ≤ f) (h1 : f < 1) :
+    (0 ≤ y → easter_num ((y : ℚ) + f) = easter y) ∧
+    (y < 0 → 0 < f → easter_num ((y : ℚ) + f) = easter (y + 1)) ∧
+    easter_num (ofInt y) = easter y := by
+  refine ⟨fun hy => ?_, fun hy hf => ?_, ?_⟩
+  · unfold easter_num; rw [ptrunc_nonneg_frac y f hy h0 h1]
+  · unfold easter_num; rw [ptrunc_neg_frac y f hy hf h1]
+  · unfold easter_num; rw [ptrunc_ofInt]
+
+/-- `Epoch.jewish_pesach(y + f)`: `iint()` floors, for every year and every fraction. -/
+theorem pesach_float_year (y : Int) (f : ℚ) (h0 : 0 ≤ f) (h1 : f < 1) :
+    jewish_pesach_num ((y : ℚ) + f) = jewish_pesach y := by
+  unfold jewish_pesach_num; rw [pfloor_add_frac y f h0 h1]
+
+/-- `Epoch.moslem2gregorian` with float arguments `h + fh, m + fm, d + fd` (fractions in `[0, 1)`):
+    ValueError exactly when the FLOATS fail the range test -- in particular day `30 + fd` and month
+    `12 + fm` with a positive fraction are refused although their integer parts are accepted --
+    otherwise the result of the integer parts. -/
+theorem moslem2gregorian_float_args (h m d : Int) (fh fm fd : ℚ)
+    (h0 : 0 ≤ fh) (h1 : fh < 1) (m0 : 0 ≤ fm) (m1 : fm < 1) (d0 : 0 ≤ fd) (d1 : fd < 1) :
+    moslem2gregorian_num ((h : ℚ) + fh) ((m : ℚ) + fm) ((d : ℚ) + fd) =
+      if d < 1 ∨ 30 < (d : ℚ) + fd ∨ m < 1 ∨ 12 < (m : ℚ) + fm ∨ h < 1 then .error .valueError
+      else moslem2gregorian h m d := by
+  unfold moslem2gregorian_num plt
+  rw [pfloor_add_frac h fh h0 h1, pfloor_add_frac m fm m0 m1, pfloor_add_frac d fd d0 d1]
+  have e1 : ((d : ℚ) + fd < 1) ↔ d < 1 := by
+    constructor
+    · intro hh; by_contra hc; have : (1 : ℚ) ≤ (d : ℚ) := by exact_mod_cast (by omega : 1 ≤ d)
+      linarith
+    · intro hh; have : (d : ℚ) ≤ 0 := by exact_mod_cast (by omega : d ≤ 0)
+      linarith
+  have e2 : ((m : ℚ) + fm < 1) ↔ m < 1 := by
+    constructor
+    · intro hh; by_contra hc; have : (1 : ℚ) ≤ (m : ℚ) := by exact_mod_cast (by omega : 1 ≤ m)
+      linarith
+    · intro hh; have : (m : ℚ) ≤ 0 := by exact_mod_cast (by omega : m ≤ 0)
+      linarith
+  have e3 : ((h : ℚ) + fh < 1) ↔ h < 1 := by
+    constructor
+    · intro hh; by_contra hc; have : (1 : ℚ) ≤ (h : ℚ) := by exact_mod_cast (by omega : 1 ≤ h)
+      linarith
+    · intro hh; have : (h : ℚ) ≤ 0 := by exact_mod_cast (by omega : h ≤ 0)
+      linarith
+  simp only [Bool.or_eq_true, decide_eq_true_eq, e1, e2, e3]
+  simp only [or_assoc]
+
+/-- the same for `Epoch.gregorian2moslem` (day `31 + fd`, month `12 + fm` refused; year floored). -/
+theorem gregorian2moslem_float_args (y m d : Int) (fy fm fd : ℚ)
+    (y0 : 0 ≤ fy) (y1 : fy < 1) (m0 : 0 ≤ fm) (m1 : fm < 1) (d0 : 0 ≤ fd) (d1 : fd < 1) :
+    gregorian2moslem_num ((y : ℚ) + fy) ((m : ℚ) + fm) ((d : ℚ) + fd) =
+      if d < 1 ∨ 31 < (d : ℚ) + fd ∨ m < 1 ∨ 12 < (m : ℚ) + fm ∨ y < -4712 then .error .valueError
+      else gregorian2moslem y m d := by
+  unfold gregorian2moslem_num plt
+  rw [pfloor_add_frac y fy y0 y1, pfloor_add_frac m fm m0 m1, pfloor_add_frac d fd d0 d1]
+  have e1 : ((d : ℚ) + fd < 1) ↔ d < 1 := by
+    constructor
+    · intro hh; by_contra hc; have : (1 : ℚ) ≤ (d : ℚ) := by exact_mod_cast (by omega : 1 ≤ d)
+      linarith
+    · intro hh; have : (d : ℚ) ≤ 0 := by exact_mod_cast (by omega : d ≤ 0)
+      linarith
+  have e2 : ((m : ℚ) + fm < 1) ↔ m < 1 := by
+    constructor
+    · intro hh; by_contra hc; have : (1 : ℚ) ≤ (m : ℚ) := by exact_mod_cast (by omega : 1 ≤ m)
+      linarith
+    · intro hh; have : (m : ℚ) ≤ 0 := by exact_mod_cast (by omega : m ≤ 0)
+      linarith
+  have e3 : ((y : ℚ) + fy < -4712) ↔ y < -4712 := by
+    constructor
+    · intro hh; by_contra hc; have : (-4712 : ℚ) ≤ (y : ℚ) := by exact_mod_cast (by omega : -4712 ≤ y)
+      linarith
+    · intro hh; have : (y : ℚ) ≤ -4713 := by exact_mod_cast (by omega : y ≤ -4713)
+      linarith
+  simp only [Bool.or_eq_true, decide_eq_true_eq, e1, e2, e3]
+  simp only [or_assoc]
+
+-- the float forms on concrete non-trivial inputs (fractions on every argument; the refused boundary)
+example : easter_num 2000.7 = (4, 23) ∧ easter_num (-0.5) = easter 0 ∧ jewish_pesach_num (-0.5) = jewish_pesach (-1) ∧
+    moslem2gregorian_num 1421.5 1.25 1.75 = .ok (2000, 4, .inl 6) ∧
+    moslem2gregorian_num 1421 1 30.5 = .error .valueError ∧ moslem2gregorian_num 1421 1 30 = .ok (2000, 5, .inl 5) ∧
+    gregorian2moslem_num 1991.5 8.5 13.5 = .ok (1412, 2, 2) ∧ gregorian2moslem_num 1991 12.5 1 = .error .valueError := by
+  refine ⟨?_, ?_, ?_, ?_, ?_, ?_, ?_, ?_⟩ <;> decide +kernel
+
+/-- Coherence of the two Pesach clauses for EVERY Hebrew year (not only those of 1..3000): in the
+    arithmetic calendar of Spec/Hebrew.lean Rosh Hashanah never falls on a Sunday, Wednesday or Friday
+    (lo ADU rosh), hence 15 Nisan, 163 days earlier, always falls on a Sunday, Tuesday, Thursday or
+    Saturday -- the weekday clause follows from the "= 15 Nisan" clause. -/
+theorem nisan15_weekday_rule (h : Int) :
+    (Hebrew.roshHashanah h + 1) % 7 ≠ 0 ∧ (Hebrew.roshHashanah h + 1) % 7 ≠ 3 ∧ (Hebrew.roshHashanah h + 1) % 7 ≠ 5 ∧
+    ((Hebrew.nisan15 h + 1) % 7 = 0 ∨ (Hebrew.nisan15 h + 1) % 7 = 2 ∨ (Hebrew.nisan15 h + 1) % 7 = 4 ∨
+     (Hebrew.nisan15 h + 1) % 7 = 6) := by
+  have key : ∀ k : Int, Hebrew.roshHashanahDay k % 7 ≠ 0 ∧ Hebrew.roshHashanahDay k % 7 ≠ 3 ∧
+      Hebrew.roshHashanahDay k % 7 ≠ 5 := by
+    intro k
+    unfold Hebrew.roshHashanahDay
+    dsimp only
+    generalize (if Hebrew.moladParts k % 25920 ≥ 18 * 1080 then Hebrew.moladParts k / 25920 + 1
+      else if Hebrew.moladParts k / 25920 % 7 = 2 ∧ Hebrew.moladParts k % 25920 ≥ 9 * 1080 + 204 ∧ Hebrew.leap k = false
+        then Hebrew.moladParts k / 25920 + 2
+      else if Hebrew.moladParts k / 25920 % 7 = 1 ∧ Hebrew.moladParts k % 25920 ≥ 15 * 1080 + 589 ∧
+          Hebrew.leap (k - 1) = true then Hebrew.moladParts k / 25920 + 1
+      else Hebrew.moladParts k / 25920) = d1
+    split_ifs <;> omega
+  have k1 := key h
+  have k2 := key (h + 1)
+  unfold Hebrew.nisan15 Hebrew.roshHashanah
+  omega
 
 end Pymeeus.C19
